@@ -63,8 +63,9 @@ def _line_codes():
 class Sys:
     """Adapter-level system: storage + MVCC adapter, one writer instance, one reader instance."""
 
-    def __init__(self, storage):
-        self.env = T.Env()
+    def __init__(self, storage, stall=False):
+        # stall: the clock does not advance, so every new transaction id is exactly the previous one + 1
+        self.env = T.Env(step=0.0 if stall else 1.0)
         self.sch = locks.install(self.env.fs)
         self.s = self.env.filestorage() if storage == 'file' else self.env.mappingstorage()
         self.ad = MV.MVCCAdapter(self.s)
@@ -96,7 +97,7 @@ def _val(data):
     return int(data[1:])
 
 
-def h_reader_primary(at1: int, at2: int, k: int, storage: str) -> None:
+def h_reader_primary(at1: int, at2: int, k: int, storage: str, stall: bool) -> None:
     """Reader runs two transactions (poll, load x, load y); k commits are injected at yield points at1 <= at2."""
     assume(0 <= at1)
     if k == 2:
@@ -104,7 +105,7 @@ def h_reader_primary(at1: int, at2: int, k: int, storage: str) -> None:
     else:
         assume(at2 == 0)
     with untraced():
-        sy = Sys(storage)
+        sy = Sys(storage, stall)
         try:
             sy.commit()                                   # v1 committed before anything starts
             sch = sy.sch
@@ -276,17 +277,19 @@ def h_connections(at1: int, at2: int, k: int, storage: str, reuse: bool) -> None
     reached()
 
 
+from zverif.harness.c05 import h_abort_reader as _abort_reader  # noqa: E402
+
 HARNESSES = [
     Harness('reader_primary', h_reader_primary,
             decides='adapter level: with k whole commits injected anywhere into two consecutive reader transactions (poll, loads, '
                     'cache kept unless invalidated) every transaction sees one commit point, not older than the last commit '
                     'completed before its boundary, and never an older one than before',
-            symbolic='injection points at1 <= at2 over all yield points of the reader', bounds='k = 1 or 2 injected commits; file and mapping storage',
+            symbolic='injection points at1 <= at2 over all yield points of the reader', bounds='k = 1 or 2 injected commits; file and mapping storage; normal clock and a stalled clock (consecutive transaction ids differ by exactly 1)',
             oracle='equal counters; floor = completed commits at the boundary',
             code=['MVCCAdapterInstance.poll_invalidations/load/_invalidate', 'MVCCAdapter._invalidate_finish', 'FileStorage.loadBefore/'
                   'lastTransaction/tpc_finish', 'FilePool.get/write_lock', 'MappingStorage.loadBefore/tpc_finish'],
-            quick=dict(timeout=150, shards=shards(k=[1, 2], storage=['file', 'mapping'])),
-            thorough=dict(timeout=600, shards=shards(k=[1, 2], storage=['file', 'mapping']))),
+            quick=dict(timeout=150, shards=shards(k=[1, 2], storage=['file', 'mapping'], stall=[False]) + shards(k=[1], storage=['file', 'mapping'], stall=[True])),
+            thorough=dict(timeout=600, shards=shards(k=[1, 2], storage=['file', 'mapping'], stall=[False, True]))),
     Harness('committer_primary', h_committer_primary,
             decides='adapter level, other role assignment: the reader\'s poll and loads injected as ordered atomic steps anywhere '
                     'into two consecutive commits (including inside tpc_finish / invalidate_finish) read one commit point that is not stale',
@@ -295,6 +298,12 @@ HARNESSES = [
             code=['MVCCAdapterInstance.tpc_finish/invalidate_finish', 'FileStorage.tpc_finish/_finish/_finish_finish', 'MappingStorage.tpc_finish'],
             quick=dict(timeout=170, shards=shards(split=[1, 2], storage=['mapping'], band=[0]) + shards(split=[1, 2], storage=['file'], band=[1, 2, 3])),
             thorough=dict(timeout=1500, shards=shards(split=[0, 1, 2], storage=['mapping'], band=[0]) + shards(split=[0, 1, 2], storage=['file'], band=[1, 2, 3]))),
+    Harness('abort_reader', _abort_reader,
+            decides='a reader loading through the pooled, buffered file handles at any point while a transaction votes, is aborted and '
+                    'the next one commits at the same file position never reads a state that was not committed (same harness as C05)',
+            symbolic='at = injection point of the reader\'s load', bounds='template T1', oracle='RevStore',
+            code=['FileStorage._abort (FilePool.flush)', 'FilePool.get/empty'],
+            quick=dict(timeout=100, shards=shards(template=['T1'])), thorough=dict(timeout=300, shards=shards(template=['T1', 'T2']))),
     Harness('connections', h_connections,
             decides='Connection level: reads through the object cache and the storage within one transaction belong to one commit '
                     'point, also for a connection closed and reused from the pool, with commits injected anywhere',
